@@ -1,4 +1,3 @@
 import JominiModel.Props.C11
-open Jomini.Props.C11
-#print axioms C11_bool
-#print axioms C11_u64_digits
+#print axioms Jomini.Props.C11.C11_bool
+#print axioms Jomini.Props.C11.C11_u64_digits
